@@ -334,7 +334,7 @@ theorem json_utf8_iff (named numbered : Bool) (order : List (Bytes × Int)) (ind
 /-- **Valid JSON modulo the captures' own ill-formed bytes.**  `json_valid_faithful` already holds for
 arbitrary bytes under the byte-level grammar (ill-formed bytes are string content and are returned
 as they are).  For a reader that insists on UTF-8 and substitutes U+FFFD for every ill-formed byte
-(`sanitize`: what `encoding/json`, Go's `range`, and WHATWG decoders do): the substituted text is
+(`sanitize`: what `encoding/json` and Go's `range` do – one U+FFFD per ill-formed byte): the substituted text is
 well-formed UTF-8, is unchanged when the text was well-formed, parses under the same grammar, and
 its members are – in the same order, none lost or merged – the substituted names with values that
 decode to the substituted captures.  So the only difference to a fully valid document is the
@@ -813,6 +813,23 @@ theorem control_skeletons_are_source :
     Gen.C16.regexTableOutline =
       ["ret=make(map[string]int)", "range idx,name:=re.SubexpNames(){", "if name!=\"\"{", "ret[name]=idx", "}", "}",
        "return"] := by
+  decide
+
+/-- **No shared mutable state behind the views** (why evaluating them on several worker goroutines at once
+cannot make them non-deterministic), read off the source on every run: pkg/minijson has exactly one
+package-level variable, the escape table, and no statement of the package assigns to it, takes its address
+or passes it on; every function that builds a view declares its `JsonObjectBuilder` as a local variable and
+does nothing with it but call its methods (no `&jb`, no closure, no `go`), so each evaluation has a builder
+of its own.  The match itself (`linePtr`, `indices`, `nameTable`) is only read (`GetMatch`, `range`, index).
+(`extra/C16.py` runs the built CLI with the race detector under 8 workers in the thorough tier.) -/
+theorem views_share_no_mutable_state :
+    Gen.C16.packageVars = ["escapeLookup"] ∧ Gen.C16.packageVarWrites = [] ∧
+    Gen.C16.builderUses =
+      [("SliceSpaceExpressionContext.json",
+          ["local:jb", "call:OpenEx", "call:WriteInferred", "call:WriteInferred", "call:Close", "call:String"]),
+       ("buildSpecialKeyJson",
+          ["local:json", "call:Open", "call:WriteString", "call:WriteString", "call:Close", "call:String"]),
+       ("MarshalStringMapInferred", ["local:jb", "call:OpenEx", "call:WriteString", "call:Close", "call:String"])] := by
   decide
 
 /-! ### non-vacuity -/
